@@ -209,6 +209,19 @@ def run_case(case):
                                    'h': w.op_rerun(o['id'], reset=True,
                                                    skip=(op == 'skip'))}
                 w.reran.pop(o['id'], None)
+                # ... and systematically: one task of every other state
+                # present, both requests
+                by_state = {}
+                for x in sorted(others, key=lambda r: r['id']):
+                    by_state.setdefault(x['state'], x)
+                for st_, x in sorted(by_state.items()):
+                    if st_ in ('ERROR', 'CANCELLED'):
+                        continue
+                    for sk in (False, True):
+                        state.setdefault('refusals', []).append({
+                            'task': x['name'], 'state': st_, 'skip': sk,
+                            'h': w.op_rerun(x['id'], reset=True, skip=sk)})
+                        w.reran.pop(x['id'], None)
             entry = {'op': op, 'task': t['name'], 'new': new,
                      'task_id': t['id'], 'seq': len(w.rec.events),
                      'with_items': T.get('with_items') is not None,
@@ -327,6 +340,13 @@ def run_case(case):
             viol('rerun-puts-running', 'non-failed-task-rerun-accepted',
                  'rerun / skip of task %s in state %s was accepted' % (
                      rf['task'], rf['state']))
+    for rf2 in state.get('refusals') or []:
+        res['monitor_evaluations']['refused-unchanged'] += 1
+        if 'result' in rf2['h']:
+            viol('rerun-puts-running', 'non-failed-task-rerun-accepted',
+                 '%s of task %s in state %s was accepted' % (
+                     'skip' if rf2['skip'] else 'rerun', rf2['task'],
+                     rf2['state']))
     # (2) equals the fresh run with the final outcomes from the start
     skipped = any(e['op'] == 'skip' for e in state['log'])
     res['monitor_evaluations']['rerun-equals-fresh'] += 1
